@@ -204,6 +204,9 @@ func TestAEADRejects(t *testing.T) {
 		for k, v := range r.byKind {
 			evid.Add("kind_"+k, int64(v))
 		}
+		if sc := c.SubClass(); sc != "" {
+			evid.Add("ctrhmac_product/"+sc, 1) // hash x IV size x tag class of the AES-CTR-HMAC cases
+		}
 		evid.Case(fmt.Sprintf("%s/pt=%s", c.Class(), gen.LenClass(len(pt))), true, evid.NewH().S(c.String()).B(pt).B(ad).Sum(), func() any {
 			return map[string]any{"case": c.String(), "pt": gen.Hex(pt), "ad": gen.Hex(ad), "candidates": r.n}
 		})
